@@ -40,5 +40,7 @@ func verifResolver() Resolver {
 		&verifField{"nick", assets.FieldTypeText},
 		&verifField{"dob", assets.FieldTypeDatetime},
 		&verifField{"state", assets.FieldTypeState},
+		&verifField{"language", assets.FieldTypeText}, // (keys shared with an attribute and a URN scheme)
+		&verifField{"tel", assets.FieldTypeText},
 	}, nil, nil)
 }
